@@ -80,6 +80,8 @@ func c25ElemCalls(fn *ssa.Function, l eng.RangeLoop, op string) []ssa.CallInstru
 }
 
 func runC25(k *eng.Check, tier string) {
+	checkEvictedRowRole(k)
+
 	c25WritePath(k)
 	c25MergePath(k)
 	c25RebuildPath(k)
@@ -821,4 +823,39 @@ func c25RebuildPath(k *eng.Check) {
 	}
 	k.OnlyAfter("reuse-only-when-valid", fn, "the reuse/rebuild decision is reached only with rebuild-required set, or the left definition Equal to the final one, or no left definition (then the index was not found)", eng.NewSet().AddI(producerCall.(ssa.Instruction)), 1,
 		eng.UnionOf(setTrue, equalsTrue, defNil), l.BodyStart())
+}
+
+// checkEvictedRowRole: when a merge validator evicts a row from the left table (NOT NULL violation), the
+// secondary-index entry it deletes must be the one derived from the row that is *in the left indexes*, i.e. the
+// left row of the diff, whatever value the violation was detected on (a cell-wise merged row may differ from the
+// left row in indexed columns, and deleting the merged row's entry would leave the left row's entry behind).
+func checkEvictedRowRole(k *eng.Check) {
+	c := k.C
+	fn := k.Fn("(libraries/doltcore/merge.nullValidator).validateDiff")
+	if fn == nil {
+		return
+	}
+	cl := c.StaticClosure([]*ssa.Function{fn}, func(p string) bool { return p == "libraries/doltcore/merge" }, 2)
+	n := 0
+	for _, f := range cl {
+		for _, call := range eng.Calls(f, eng.Named(`DeleteEntry$`), false) {
+			args := call.Common().Args
+			if len(args) < 2 {
+				continue
+			}
+			n++
+			v := args[len(args)-1]
+			fields, other := eng.ArgFieldOrigins(v, cl, 3)
+			ok := !other && len(fields) == 1 && fields["store/prolly/tree.ThreeWayDiff.Left"]
+			var got []string
+			for f := range fields {
+				got = append(got, f)
+			}
+			k.Require("evicted-row-is-left-row", eng.Name(f)+"#DeleteEntry", "the secondary-index entry removed for an evicted row is derived from the diff's left row", ok, c.InstrPos(call.(ssa.Instruction)),
+				fmt.Sprintf("value argument originates from %v (other=%v), not exclusively from ThreeWayDiff.Left", got, other))
+		}
+	}
+	if n < 2 {
+		k.Unknown("evicted-row-is-left-row", eng.Name(fn), "DeleteEntry calls in the NOT NULL validator", fmt.Sprintf("%d found (floor 2)", n))
+	}
 }
